@@ -23,6 +23,17 @@ def make_case(rng, edges, D, style=None, mass_mode=None, ext_mode=None, want=Non
             ext = rng.sample(verts, min(2, len(verts)))
         elif em == "none":
             ext = []
+        elif em == "edge":
+            # two-point function: the externals are the end points of one propagator; massless, or only that propagator massive
+            cand = [i for i, (a, b) in enumerate(edges) if a != b]
+            if not cand:
+                ext = list(verts)
+            else:
+                i = rng.choice(cand)
+                ext = list(edges[i])
+                massive = [False] * n
+                if rng.random() < 0.5:
+                    massive[i] = True
         else:
             unused = [v for v in range(256) if v not in verts]
             ext = rng.sample(verts, min(1, len(verts))) + [rng.choice(unused)]
